@@ -148,8 +148,18 @@ def _fold_distinct(recs):
     return True
 
 
+def loader_friendly(recs):
+    """The same map said the way a priority map or a reverse prefix map can say it: no CURIE-prefix synonyms, no
+    pattern, and the canonical URI prefix the strictly shortest of its record (other URI prefixes of that length go)."""
+    out = []
+    for r in recs:
+        us = sorted(spec.all_u(r), key=len)
+        out.append(spec.Rec(r.prefix, us[0], (), tuple(u for u in us[1:] if len(u) > len(us[0])), None))
+    return out
+
+
 UNIQUE_RECORD_PROPS = {"C02", "C06"}
-ROUTES = ["ctor", "ctor", "incremental", "mixed", "grown-by-merge", "re-added-case-insensitively"]
+ROUTES = ["ctor", "ctor", "incremental", "mixed", "grown-by-merge", "re-added-case-insensitively", "via-loader"]
 
 
 def mk_records_sharing_lists(api, order, rng):
@@ -467,6 +477,24 @@ def _build(api, recs, delimiter, rng, how):
         if shape < 0.25:
             return api.Converter(tuple(made), delimiter=delimiter), how + "(tuple)"
         return api.Converter(made, delimiter=delimiter), how
+    if how == "via-loader":
+        # the map arrives through one of the documented loaders, its entries in a shuffled order (entries of one record
+        # need not be adjacent): an extended prefix map always; a priority map or a reverse prefix map when the records
+        # can be said that way (no CURIE-prefix synonyms, no pattern; for the reverse map the canonical URI prefix is the
+        # strictly shortest of its record).  Seed C01-S: a loader that groups adjacent entries only.
+        plain = all(not r.psyn and not r.pattern for r in order)
+        shortest = plain and all(all(len(r.uri_prefix) < len(u) for u in r.usyn) for r in order)
+        kinds = ["extended"] + (["priority"] if plain else []) + (["reverse", "reverse"] if shortest else [])
+        kind = rng.choice(kinds)
+        if kind == "extended":
+            c = api.Converter.from_extended_prefix_map([json.loads(json.dumps(spec.rec_dict(r))) for r in order], delimiter=delimiter)
+        elif kind == "priority":
+            c = api.Converter.from_priority_prefix_map({r.prefix: [r.uri_prefix, *r.usyn] for r in order}, delimiter=delimiter)
+        else:
+            items = [(u, r.prefix) for r in order for u in spec.all_u(r)]
+            rng.shuffle(items)
+            c = api.Converter.from_reverse_prefix_map(dict(items), delimiter=delimiter)
+        return c, f"{how}({kind})"
     if how == "re-added-case-insensitively":
         # every record is registered, then registered again through a case-insensitive merge (in pieces or whole):
         # no two strings of the map differ only by letter case, so every piece must find its own record and nothing else
